@@ -655,7 +655,7 @@ func (c *specCtx) call(n *SCall) (Val, types.Type) {
 			c.fail("has on non-map")
 		}
 		kk := c.e.mapKey(c.st, mt.Key(), k)
-		return scalar(tb.Select(tb.Select(c.H(c.e.mapDomClass(mt), SArr2B), m.T[0]), kk)), boolType
+		return scalar(tb.And(tb.Neq(m.T[0], tb.Int(0)), tb.Select(tb.Select(c.H(c.e.mapDomClass(mt), SArr2B), m.T[0]), kk))), boolType
 	case "key":
 		// composite key/value literal from leaves
 		var ts []*Term
